@@ -51,6 +51,7 @@ type session struct {
 	manifest       *journal.Writer
 	manifestWriter storage.Writer
 	manifestFd     storage.FileDesc
+	manifestBroken bool // an append to the current manifest failed; need external synchronization
 
 	stCompPtrs  []internalKey // compaction pointers; need external synchronization
 	stVersion   *version      // current version
@@ -226,7 +227,7 @@ func (s *session) commit(r *sessionRecord, trivial bool) (err error) {
 	if s.manifest == nil {
 		// manifest journal writer not yet created, create one
 		err = s.newManifest(r, nv)
-	} else if s.manifest.Size() >= s.o.GetMaxManifestFileSize() {
+	} else if s.manifest.Size() >= s.o.GetMaxManifestFileSize() || s.manifestBroken {
 		// pass a sessionRecord without the table changes to avoid over-reference
 		// table file, but carry the journal and sequence numbers of this edit:
 		// the new manifest must not fall back to the previously committed ones.
@@ -242,12 +243,19 @@ func (s *session) commit(r *sessionRecord, trivial bool) (err error) {
 		}
 		err = s.newManifest(nr, nv)
 		if err == nil {
+			s.manifestBroken = false
 			for _, cp := range r.compPtrs {
 				s.setCompPtr(cp.level, cp.ikey)
 			}
 		}
 	} else {
 		err = s.flushManifest(r)
+		if err != nil {
+			// A failed append may leave the manifest writer with a sticky
+			// error and the file with a partial record. Never append to it
+			// again: the next commit starts a new manifest instead.
+			s.manifestBroken = true
+		}
 	}
 
 	// finally, apply new version if no error rise
